@@ -346,6 +346,11 @@ pub fn iota_did(cex: &Value) -> Result<String, String> {
       format!("did:iota:{tag_l}/path"),
       format!("did:iota:{tag_l}?q"),
       format!("did:iota:{tag_l}#f"),
+      format!("did:iota:{tag_l}#"),
+      format!("did:iota:{tag_l}?"),
+      format!("did:iota:{tag_l}?#"),
+      format!("did:iota:{tag_l}/"),
+      format!("did:iota:rms:{tag_l}#"),
     ];
     for s in &bad {
       if IotaDID::parse(s).is_ok() {
@@ -360,6 +365,26 @@ pub fn iota_did(cex: &Value) -> Result<String, String> {
     for (n, ok) in [("", false), ("a", true), ("abc123", true), ("abcdefg", false), ("Abc", false), ("a-b", false), ("é", false)] {
       if NetworkName::try_from(n.to_owned()).is_ok() != ok {
         log.push(format!("[network] network name {n:?}: {}", if ok { "rejected" } else { "accepted" }));
+      }
+    }
+    // network names that did not come through the validating constructor (NetworkName derives Deserialize): the infallible
+    // constructors must not turn them into an un-normalised or invalid DID value (they may refuse, i.e. panic as documented)
+    for raw in ["Smr", "IOTA", "iota", "rMs1"] {
+      if let Ok(n) = serde_json::from_str::<NetworkName>(&format!("\"{raw}\"")) {
+        for which in ["new", "from_alias_id", "placeholder"] {
+          let n2 = n.clone();
+          let built = no_panic(move || match which {
+            "new" => IotaDID::new(&[0xab; 32], &n2),
+            "from_alias_id" => IotaDID::from_alias_id(&format!("0x{}", "ab".repeat(32)), &n2),
+            _ => IotaDID::placeholder(&n2),
+          });
+          if let Ok(d) = built {
+            let text = d.to_string();
+            if text != text.to_lowercase() || text.starts_with("did:iota:iota:") || IotaDID::parse(&text).ok().as_ref() != Some(&d) {
+              log.push(format!("[ctor] IotaDID::{which} with deserialised network name {raw:?} yields {text:?}: not a normalised, re-parsable IOTA DID"));
+            }
+          }
+        }
       }
     }
     let bytes = [0xabu8; 32];
